@@ -2,7 +2,7 @@
 import errno
 import formats as F
 import walkers
-from fobj import FaultFile
+from fobj import FaultFile, RawMem
 from guards import timed
 from vcheck import hx, parse_fields
 
@@ -95,6 +95,33 @@ def run(ctx):
                     ctx.notes.append("reference %s of %s failed: %r" % (op, sname, r0)); continue
                 n = ref.calls
                 ref_log = list(ref.log)
+                # the same operation on a raw stream (io.RawIOBase), clean and with one fault: never closed, only MutagenError
+                for fa in (None, 0, 3, n // 2):
+                    rm = RawMem(data, name="x" + fmt.exts[0], fail_at=fa)
+                    try:
+                        go3, _ = prepare(fmt, data, op)
+                    except Exception:
+                        break
+                    def run_raw():
+                        rm._b.seek(0)
+                        if op == "load":
+                            fmt.cls(rm)
+                        else:
+                            # prepare()'s closure rewinds through `_f` of FaultFile: give it the same handle
+                            rm._f = rm._b
+                            go3(rm)
+                    kr, rr = timed(run_raw, 30)
+                    ctx.case(key=(fmt.kind, sname, op, "raw", fa), nontrivial=True, modelled=False)
+                    ctx.hist["raw-stream"] += 1
+                    craw = {"format": fmt.kind, "sample": sname, "op": op, "stream": "io.RawIOBase", "fail_at": fa}
+                    if rm.close_calls or rm.closed:
+                        ctx.violation("%s:%s:closes-caller-file" % (fmt.kind, op), "close() was called on the caller's raw stream", craw)
+                    if kr == "exc" and not isinstance(rr, MutagenError):
+                        key = "escape:%s:raw-stream" % type(rr).__name__
+                        if isinstance(rr, ValueError) and str(rr).startswith("Can't "):
+                            key = "escape:ValueError:_util.py:verify_fileobj"      # the recorded finding, reached through a raw stream
+                        ctx.violation(key, "%s escaped from %s %s on a raw stream: %s"
+                                      % (type(rr).__name__, fmt.kind, op, str(rr)[:100]), craw)
                 ref_bytes = ref.getvalue()
                 reads = [i for i, l in enumerate(ref_log) if l.startswith("r")]
                 plans = [("io", i, None) for i in indices(n, ctx.quick, rng)]
